@@ -109,6 +109,16 @@ def rust_bitfield(d):
             lines.append('    %s' % field_doc(f, ' (after its bit attribute)'))
         lines.append('    %s: %s,' % (f['name'], rust_field_ty(f)))
     lines.append('}')
+    if d.get('macro_default') and d.get('default') is not None:
+        # produced by a macro_rules! macro: the default value is a fragment ($d) substituted into the attribute
+        df = d['default']
+        arg = df.get('text', str(df['value'])) if df['form'] == 'lit' else df['name']
+        k = [i for i, l in enumerate(lines) if l.startswith('#[bitbybit::bitfield(')][0]
+        body = [l.replace('default%s%s' % (': ' if d.get('legacy') else ' = ', arg), 'default%s$d' % (': ' if d.get('legacy') else ' = '))
+                if i == k else l for i, l in enumerate(lines[k:], k)]
+        k0 = len(pre)            # the constants stay outside; the struct's doc comment and attributes go inside
+        lines = lines[:k0] + ['macro_rules! mk_%s {' % d['name'].lower(), '    ($d:%s) => {' % d['macro_default']] + \
+            ['        ' + l for l in lines[k0:k] + body] + ['    };', '}', 'mk_%s!(%s);' % (d['name'].lower(), arg)]
     if d.get('module'):
         # the declaration lives in a module of its own so that names it introduces (a default constant called MASK, RAW,
         # ZERO ...) can coincide with names the macro uses internally without clashing with other corpus members
